@@ -25,6 +25,7 @@ def run(prog: Program, rep: Report):
     r4_save(prog, rep, fam, mut, rec, lines)
     r5_readonly(prog, rep, fam)
     r6_table_kind(prog, rep, fam, mut, lines)
+    r7_derived_and_owned(prog, rep, fam, mut, lines)
 
 
 def r1_delegation(prog, rep: Report, fam: Family, mut: Cls, lines: str):
@@ -597,3 +598,49 @@ def r6_table_kind(prog, rep: Report, fam: Family, mut: Cls, lines: str):
                                       "f[i] = ..., insert, append or extend", line=n.lineno)
                 else:
                     rep.unrec("C12.R6", f, role, f"cannot tell what kind of container `{why}` is", line=n.lineno)
+
+
+# ---------------------------------------------------------------------------------------------- R7 / R8
+def r7_derived_and_owned(prog, rep: Report, fam: Family, mut: Cls, lines: str):
+    from .c11 import data_path_field
+    from .memo import rule_derived_state
+    from .ownership import freshness
+    muts = [c for c in fam.line_classes if mut in c.repo_mro()]
+    rep.rule("C12.R7", "derived state of the mutable line files is refreshed with its source: the offset/content table and the handle are "
+             "the primary state; any other field written outside the constructor and read somewhere (a remembered line, a cached "
+             "position) is re-assigned or cleared on every path of every public operation that edits the table (set, delete, insert, "
+             "and the inherited pop/remove/reverse/append/extend/clear/+=)", floor=len(muts))
+    known = {fam.dirty_field(), data_path_field(prog, fam)}
+    for c in muts:
+        rule_derived_state(prog, rep, "C12.R7", c, {lines} | set(fam.handles[c.qual]), fam.entry_points(c, True),
+                           config=known | {fam.pid_field[c.qual]}, declare=False)
+    rep.rule("C12.R8", "the table of a mutable line file belongs to that object: what the classes themselves put into the table field is "
+             "created for this object (a display, the index builder's list, a fresh list read from the index file) or is the caller's "
+             "own sequence; it is never an object handed out to several callers (a memoised helper's result, a class-level list)",
+             floor=3)
+    from ..util import iter_stores
+    n = 0
+    seen = set()
+    for c in fam.line_classes:
+        for k in c.repo_mro():
+            if k.is_external:
+                continue
+            for f in k.methods.values():
+                if f.self_name is None or f.qual in seen:
+                    continue
+                seen.add(f.qual)
+                for t, v, st in iter_stores(f.node):
+                    if dotted(t) != (f.self_name, lines) or v is None:
+                        continue
+                    n += 1
+                    rep.fn(f)
+                    kind, why = freshness(prog, f, v)
+                    role = f"owned:{f.name}:{n}"
+                    if kind == "fresh" or (kind == "alias" and "parameter" in why):
+                        rep.ok("C12.R8", f, role, f"self.{lines} = {why}")
+                    elif kind == "alias":
+                        rep.viol("C12.R8", f, role, f"self.{lines} is assigned {why}: several objects edit one table",
+                                 scenario="two mutable files built from the same index file: unsaved edits of one appear in the other "
+                                          "although its dirty flag is False", line=st.lineno)
+                    else:
+                        rep.unrec("C12.R8", f, role, f"cannot tell whether `{src(v)[:60]}` is a fresh list ({why})", line=st.lineno)
